@@ -30,6 +30,38 @@ def _block_times(b):
     return os_, end
 
 
+def spec_audio(t, sr, x):
+    """The audio a track specification stands for, from the property text (C20 / C03 round 4): a direct spec is the
+    named input channel, a silent spec is silence, a mix is the sum of its inputs, a gain scales its input, a matrix
+    coefficient scales its input by the coefficient gain (if any) and delays it by the coefficient delay (ms) rounded
+    to the nearest whole sample (an exact half goes to the smaller count) - zeros shifted in, length kept.
+    x: (n, nin) array -> (n,) array."""
+    n = x.shape[0]
+    k = t[0]
+    if k == "D":
+        return x[:, t[1]].astype(float).copy()
+    if k == "S":
+        return np.zeros(n)
+    if k == "M":
+        acc = np.zeros(n)
+        for c in t[1]:
+            acc = acc + spec_audio(c, sr, x)
+        return acc
+    if k == "G":
+        return float(F(t[1])) * spec_audio(t[2], sr, x)
+    if k == "X":
+        y = spec_audio(t[3], sr, x)
+        if t[1] is not None:
+            y = float(F(t[1])) * y
+        if t[2] is not None:
+            q = F(sr) * F(t[2]) / 1000
+            lo = q.numerator // q.denominator
+            d = lo if q - lo <= F(1, 2) else lo + 1
+            y = np.concatenate([np.zeros(d), y])[:n]
+        return y
+    raise AssertionError(t)
+
+
 def reference(sc, sess):
     """Independent reference, written from the C03 statement:
     at every output sample each item gets the gains of the block containing the sample (block i covers the integer
@@ -37,14 +69,22 @@ def reference(sc, sess):
     linearly interpolated from the previous block's gains over the interpolation period (interpolationLength with
     jumpPosition, 0 if absent; the whole block without jumpPosition) when the block starts exactly where the previous
     one ended; silence outside any block. Direct path: zero latency. Diffuse path: decorrelation filter applied with
-    its group delay (N-1)//2 compensated. Output = sum over items."""
+    its group delay (N-1)//2 compensated. Output = sum over items.
+    Round 4: the audio of an item is what its track spec stands for (`spec_audio`); the input continues as silence
+    after its last frame, so an input delayed by a matrix coefficient is still heard by the decorrelator's
+    look-ahead of (N-1)//2 samples."""
     T, sr, nout = sc["T"], sc["sr"], sess.nout
+    f = sess.taps
+    N = f.shape[0]
+    d = (N - 1) // 2
     x = np.array(sc["x"], dtype=float).reshape(T, sc["nin"])
+    xe = np.concatenate([x, np.zeros((d, sc["nin"]))])  # the input followed by silence (look-ahead region)
     out = np.zeros((T, nout))
-    diffuse_in = np.zeros((T, nout))
+    diffuse_in = np.zeros((T + d, nout))
     for it, gs in zip(sc["items"], sess.item_gains):
         times = [_block_times(b) for b in it["blocks"]]
-        for s in range(T):
+        ys = [spec_audio(t, sr, xe) for t in c02.item_specs(it)]  # (T+d,) per track spec of the item
+        for s in range(T + d):
             for i, (b, (start, end)) in enumerate(zip(it["blocks"], times)):
                 lo = _ceil(start * sr)
                 hi = None if end is None else _ceil(end * sr)
@@ -62,21 +102,20 @@ def reference(sc, sess):
                         if s < _ceil(target * sr):
                             p = float((s - start * sr) / ((target - start) * sr))
                             g = (1.0 - p) * np.array(gs[i - 1], dtype=float) + p * g
-                    xs = x[s, it["track"]]
-                    out[s] += g[:nout] * xs
+                    xs = ys[0][s]
+                    if s < T:
+                        out[s] += g[:nout] * xs
                     diffuse_in[s] += g[nout:] * xs
-                elif it["kind"] == "D":
-                    out[s] += g * x[s, it["track"]]
-                else:
-                    out[s, sess.hoa_mask] += g @ x[s, it["tracks"]]
+                elif s < T:
+                    if it["kind"] == "D":
+                        out[s] += g * ys[0][s]
+                    else:
+                        out[s, sess.hoa_mask] += g @ np.array([y[s] for y in ys])
                 break
-    f = sess.taps
-    N = f.shape[0]
-    d = (N - 1) // 2
     for s in range(T):
         for k in range(N):
             j = s + d - k
-            if 0 <= j < T:
+            if 0 <= j < T + d:
                 out[s] += f[k] * diffuse_in[j]
     return out
 
@@ -109,16 +148,22 @@ class C03(Spec):
         "C03_gain_timeline", "C03_silence_outside_blocks", "gainAt_silent_iff", "C03_sum_of_items_linear",
         "C03_render_formula", "C03_direct_zero_latency", "C03_diffuse_group_delay", "exBlocks_accepted",
         "exSession_ok")) + ("Earverif.Renderer.render_refines_spec", "Earverif.Stream.vbs_fir_eq",
-                            "Earverif.Stream.aligner_run_eq")
+                            "Earverif.Stream.aligner_run_eq") + tuple("Earverif.RendererTS." + t for t in (
+        "render_refines_spec_ts", "render_eq_outTS", "out_itemStreams", "C03_render_formula_ts", "C03_item_audio_ts",
+        "C03_coefficient_delay_ts", "C03_direct_spec_ts", "exSessionTS_ok"))
     HYPOTHESES_NOTE = (
         "theorems still stated with component facts as hypotheses: none - C03_render_formula (out[s] = direct(s) + "
         "sum_k f[k] diffuse(s+(N-1)//2-k) + ds(s) + hoa(s) for every blocking) rests on render_refines_spec, proved "
-        "outright under SessionOK (block_size >= 1, accepted timelines). Not under the kernel: FFT convolver (FIR "
-        "stand-in), gain calculators (captured), track processors other than DirectTrackSpec.")
+        "outright under SessionOK (block_size >= 1, accepted timelines); round 4: C03_render_formula_ts (the same "
+        "formula with every item's audio = meaning(track spec), incl. C03_coefficient_delay_ts: a coefficient delay of "
+        "d samples delays the item's audio by exactly d samples) rests on render_refines_spec_ts, proved outright under "
+        "SessionOKTS (SessionOK + C20 Spec.wf + HOA items with >= 1 spec). Not under the kernel: FFT convolver (FIR "
+        "stand-in), gain calculators (captured).")
     trusted_base = c02.C02.trusted_base + (
         "specification Earverif/Model/RenderSpec.lean (gainAt/out) written from the property text; compared with "
         "the real Renderer on every run; the search reference (harness/c03.py: reference) is a second, "
-        "independent numpy transcription of the same text",
+        "independent numpy transcription of the same text (round 4: with `spec_audio`, an independent "
+        "transcription of what a track spec stands for)",
     )
     assumptions = c02.C02.assumptions + (
         "durations and interpolation lengths are non-negative (the interpreters do not reject negative ones)",
@@ -126,13 +171,15 @@ class C03(Spec):
     rule = (
         "scenario as in C02; the concatenated real output (all render() calls + get_tail) is compared sample by "
         "sample with RenderSpec.out evaluated by the Lean driver (exact rationals) and with the numpy reference; "
-        "non-trivial = at least one item and T >= 1"
+        "non-trivial = at least one item and T >= 1; scenarios whose items carry generated track specs (mix, gain, "
+        "matrix coefficient with gain and delay, silent, nested) are compared with RendererTS.outTS (driver op spects), "
+        "with the extended transliterated model (runts) and with the numpy reference extended by spec_audio"
     )
 
     def budgets(self, ctx):
         if ctx.quick:
-            return dict(small=60, long=25, run=25, search=120)
-        return dict(small=400, long=250, run=150, search=1500)
+            return dict(small=60, long=25, run=25, search=120, ts_small=30, ts_long=10, ts_run=12)
+        return dict(small=400, long=250, run=150, search=1500, ts_small=250, ts_long=120, ts_run=80)
 
     def correspond(self, ctx):
         ctx.notes.append(self.HYPOTHESES_NOTE)
@@ -147,11 +194,21 @@ class C03(Spec):
         for i in range(bud["long"]):
             sc = c02.gen_scenario(rng, small=False)
             scs.append((sc, c02.partitions_for(rng, sc["T"], False, 2)))
+        # round 4: items with non-trivial track specs against RendererTS.outTS and the extended reference
+        for i in range(bud["ts_small"]):
+            sc = c02.add_specs(rng, c02.gen_scenario(rng, small=True))
+            scs.append((sc, c02.partitions_for(rng, sc["T"], False, 3)))
+        for i in range(bud["ts_long"]):
+            sc = c02.add_specs(rng, c02.gen_scenario(rng, small=False))
+            scs.append((sc, c02.partitions_for(rng, sc["T"], False, 2)))
         c2.correspond_render(ctx, driver, scs, mode="spec", extra=predicate_c03, c02_pred=False)
         # the transliterated model on a smaller batch (the C03 theorems are about it)
         runs = []
         for i in range(bud["run"]):
             sc = c02.gen_scenario(rng, small=rng.random() < 0.6)
+            runs.append((sc, c02.partitions_for(rng, sc["T"], False, 2)))
+        for i in range(bud["ts_run"]):
+            sc = c02.add_specs(rng, c02.gen_scenario(rng, small=rng.random() < 0.6))
             runs.append((sc, c02.partitions_for(rng, sc["T"], False, 2)))
         c2.correspond_render(ctx, driver, runs, mode="run", c02_pred=False)
 
@@ -164,11 +221,14 @@ class C03(Spec):
                 sc = c02.gen_scenario(rng, T=rng.randint(600, 1500), default_sizes=True)
             else:
                 sc = c02.gen_scenario(rng, small=rng.random() < 0.4)
+            if i % 3 == 1:
+                sc = c02.add_specs(rng, sc)
             parts = c02.random_partition(rng, sc["T"]) if sc["T"] else (0,)
             sess = c02.Session(sc)
             real, err = sess.run(parts)
             ctx.case(("search", json.dumps(sc, sort_keys=True), parts), bool(sc["items"]) and sc["T"] >= 1)
-            ctx.count("search:" + ("default-sizes" if default_sizes else "small-sizes"))
+            ctx.count("search:" + ("default-sizes" if default_sizes else "small-sizes") +
+                      ("+track-specs" if c02.uses_ts(sc) else ""))
             for it in sc["items"]:
                 ctx.count("search-item:" + it["kind"])
             for f in sc["features"]:
@@ -189,11 +249,27 @@ REGISTRY = dict(
     "interpreters), interp_ramp_closed_form, ceil_eq_ceilQ, obj_all_spec; corollaries C03_gain_timeline, "
     "C03_silence_outside_blocks, C03_direct_zero_latency, C03_diffuse_group_delay, C03_sum_of_items_linear. The real "
     "Renderer is compared on every run with the Lean specification RenderSpec.out (exact rationals) and with the "
-    "transliterated model, and the search compares it with an independent numpy reference written from the property text.",
+    "transliterated model, and the search compares it with an independent numpy reference written from the property text. "
+    "Round 4 - track processors are now INSIDE the model (Earverif/Model/RendererTS.lean: every Objects/DirectSpeakers "
+    "item carries a TrackSpec.Spec, every HOA item a list, processed by the C20 processor state machine inside each "
+    "render call and get_tail): Earverif.RendererTS.C03_render_formula_ts (from render_refines_spec_ts / "
+    "render_eq_outTS) proves for every blocking out[s] = sum_obj direct_gains(s)*y(s) + sum_k f[k]*(sum_obj "
+    "diffuse_gains*y)(s+(N-1)//2-k) + sum_ds gains(s)*y(s) + sum_hoa M(s)*(y_1(s)..y_m(s)) with y = sAt = the literal "
+    "meaning of the item's track spec (inputs summed, scaled, delayed) on the input followed by the tail's silence; "
+    "C03_item_audio_ts: inside the input y(t) = meaning(spec)(x)(t) (zero extra latency); C03_coefficient_delay_ts: a "
+    "matrix coefficient delay of d = round(fs*ms/1000) samples gives y_delayed(t) = y_undelayed(t-d) at every t up to "
+    "the end of the tail, i.e. the item's contribution to every term is delayed by exactly d samples (and a delayed "
+    "input keeps feeding the decorrelator look-ahead after the last input frame); C03_direct_spec_ts: DirectTrackSpec "
+    "gives back C03_render_formula. Kernel-evaluated example exSessionTS_ok (mix of two inputs, one through a matrix "
+    "coefficient with gain 1/2 and a 2-sample delay; gain over a delayed input; MultiTrackProcessor with a silent spec). "
+    "The real Renderer with items constructed with generated mix/gain/matrix-coefficient(delay)/silent/nested track "
+    "specs is compared with RendererTS.outTS (spects), with the extended model (runts) and with the numpy reference "
+    "extended by an independent spec_audio.",
     note="Trusted: Lean kernel; hand transliteration + correspondence harness; captured gains (gain calculators are other "
     "properties); FFT convolver modelled as FIR (tied by correspondence). Quantifier limits: durations and "
-    "interpolationLength >= 0, start >= 0 (negative start raises 'metadata underrun' in the real code); DirectTrackSpec "
-    "inputs.",
+    "interpolationLength >= 0, start >= 0 (negative start raises 'metadata underrun' in the real code); track specs "
+    "satisfying C20's Spec.wf (indices within the input channels, delays rounding to >= 0 samples; generated delays stay "
+    "off rounding ties), HOA items with >= 1 spec, one sample rate per session.",
     technique="Lean 4 refinement proof of the composed renderer against a sample-by-sample specification + differential "
     "correspondence of model and specification with the real Renderer + independent numpy reference",
     design_ref="DESIGN.md section 4, C02/C03",
